@@ -13,7 +13,7 @@ TIME_LIMIT = {'quick': 50, 'thorough': 600}
 RULE = ('random report trees (depth 0-6, 0-4 children per section, 0-3 results per section, optional plot per result, '
         'plots shared between results) with titles from a pool containing index, conf, figures, .static, a/b, "..", '
         '".", NUL, the empty string, unicode, spaces and repeated titles (also among siblings); written with '
-        'Rst.format_report(...).write(tmpdir); non-trivial = >= 3 sections and >= 2 results, or a rejected tree; '
+        'Rst.format_report(...).write(tmpdir), 45% of the cases with another report formatted by the same Rst object before, or between formatting and writing; non-trivial = >= 3 sections and >= 2 results, or a rejected tree; '
         'distinct = case hash')
 CORRESPONDS = 'Model/Report.lean (Report.pages, write, pagePath, resolveToc, validTitle) vs valjean.javert.rst.Rst.format_report + FormattedRst.write'
 TRUSTED = ['harness/props/c20.py (generator, stub results/representation, page scanner, oracle)',
